@@ -21,6 +21,18 @@ func runC14(a *A) {
 	a.Rule("flow/where-order", 3, func() {
 		fn := a.Method("stream", "Stream", "applyWhereAndAnalytic")
 		evalAn := a.Method("stream", "Stream", "evalAnalytic")
+		// a boolean helper that wraps the predicate (passesWhere): its call is the predicate evaluation
+		filterHelper := map[*ssa.Function]bool{}
+		for _, h := range a.helpersOf(fn) {
+			if res := h.Signature.Results(); res.Len() != 1 || !isBool(res.At(0).Type()) {
+				continue
+			}
+			allInstrs(h, func(in ssa.Instruction) {
+				if c := callCommon(in); c != nil && c.IsInvoke() && c.Method.Name() == "Evaluate" {
+					filterHelper[h] = true
+				}
+			})
+		}
 		for _, cs := range []struct {
 			whereUses, pass bool
 			want            string
@@ -36,13 +48,20 @@ func runC14(a *A) {
 					if c, ok := v.(*ssa.Call); ok && c.Call.IsInvoke() && c.Call.Method.Name() == "Evaluate" {
 						return tri(cs.pass)
 					}
+					if c, ok := v.(*ssa.Call); ok && c.Call.StaticCallee() != nil && filterHelper[c.Call.StaticCallee()] {
+						return tri(cs.pass)
+					}
 					if bo, ok := v.(*ssa.BinOp); ok {
 						if (bo.Op == token.NEQ || bo.Op == token.EQL) && isFieldOf(TermOf(bo.X, nil), "stream.Stream", "filter") {
 							return tri(bo.Op == token.NEQ)
 						}
-						if bo.Op == token.GTR {
-							if t := TermOf(bo.X, nil); t.Kind == "len" && isFieldOf(t.Base, "types.Config", "WhereAnalyticCalls") {
+						// len(WhereAnalyticCalls) compared with 0, whichever way it is written
+						if t := TermOf(bo.X, nil); t.Kind == "len" && isFieldOf(t.Base, "types.Config", "WhereAnalyticCalls") && isZeroConst(bo.Y) {
+							switch bo.Op {
+							case token.GTR, token.NEQ:
 								return tri(cs.whereUses)
+							case token.EQL, token.LEQ:
+								return tri(!cs.whereUses)
 							}
 						}
 					}
@@ -57,6 +76,10 @@ func runC14(a *A) {
 					w.Tag(seq[w.cur])
 				}
 				if c := callCommon(in); c != nil && c.IsInvoke() && c.Method.Name() == "Evaluate" {
+					seq[w.cur] += "F"
+					w.Tag(seq[w.cur])
+				}
+				if callee := staticCallee(in); callee != nil && filterHelper[callee] {
 					seq[w.cur] += "F"
 					w.Tag(seq[w.cur])
 				}
